@@ -262,6 +262,11 @@ def generate(prop, rng, tier):
             rr = rng.random()
             if set_counter == 1 and rr > 0.6:
                 name = None                       # default name (stored as '')
+            elif 0.05 <= rr < 0.13:
+                # assembly-qualified names: long, and equal to each other for the first 80+ characters
+                name = "ASSEMBLY_" + "Part-1_Instance-%s_" % ("0123456789" * rng.choice([7, 9, 12])) + "SURF-%d" % set_counter
+            elif 0.13 <= rr < 0.18:
+                name = "Fl\u00e4che \u2116%d / \u0394" % set_counter     # not ASCII
             if rr < 0.05:
                 name = 17                         # invalid type -> must raise
             ops.append({"op": "add_set", "kind": kind, "geom": g, "mesh": mk, "ids": idl, "name": name})
@@ -303,7 +308,9 @@ def generate(prop, rng, tier):
           # between calls), or builds a fresh frame for every call
           "kept_frames": rng.random() < 0.5,
           "level_order": rng.choice(["en", "en", "ne"]),
-          "interleave": rng.randint(1, 10 ** 6) if rng.random() < 0.25 else None}
+          "interleave": rng.randint(1, 10 ** 6) if rng.random() < 0.25 else None,
+          # columns are identified by name: the frame may carry them in any order
+          "column_order": rng.randint(1, 10 ** 6) if rng.random() < 0.3 else None}
     mode = rng.random()
     cand = [i for i, o in enumerate(ops) if o["op"] not in ("read", "set_attr", "mutate_mesh")]
     if mode < 0.7 and cand:
@@ -320,7 +327,8 @@ def generate(prop, rng, tier):
 class Frames:
     """Frame policy of a run: fresh frame per call, or one kept object per mesh that is mutated in place."""
 
-    def __init__(self, kept, level_order, interleave=None):
+    def __init__(self, kept, level_order, interleave=None, column_order=None):
+        self.column_order = column_order
         self.kept = kept
         self.level_order = level_order
         self.interleave = interleave
@@ -352,6 +360,11 @@ class Frames:
             df = df.iloc[order]
         if self.level_order == "ne":
             df = df.swaplevel()            # levels are identified by name: (node_id, element_id) is as valid
+        if self.column_order:
+            import random as _r
+            cols = list(df.columns)
+            _r.Random(int(self.column_order)).shuffle(cols)
+            df = df[cols]
         return df
 
     def mutated(self, key, mesh):
@@ -795,7 +808,10 @@ def _run(trace, out, log, d, seam):
         return
     model = ref.Model()
     faults = trace.get("faults")
-    FRAMES[0] = Frames(bool(trace.get("kept_frames")), trace.get("level_order", "en"), trace.get("interleave"))
+    FRAMES[0] = Frames(bool(trace.get("kept_frames")), trace.get("level_order", "en"), trace.get("interleave"),
+                       trace.get("column_order"))
+    if trace.get("column_order"):
+        out.count("probe:frame_columns_in_another_order")
     if trace.get("interleave"):
         out.count("probe:interleaved_element_rows")
     if trace.get("level_order") == "ne":
@@ -1019,6 +1035,11 @@ def shrink(prop, trace):
                 t = copy.deepcopy(trace)
                 t["faults"]["points"] = [p]
                 yield t
+    for key, plain in (("column_order", None), ("interleave", None), ("level_order", "en"), ("kept_frames", False)):
+        if trace.get(key) not in (plain, None, False):
+            t = copy.deepcopy(trace)
+            t[key] = plain
+            yield t
     # unused meshes
     used = {o["mesh"] for o in ops if "mesh" in o}
     if set(trace["meshes"]) - used:
